@@ -28,6 +28,11 @@ impl LintPass for GarbageInputValueCheck {
                     }
                 }
             } else if let Some(func) = node.is_function_entry_with_func() {
+                // An interrupt handler interrupts other code: every register
+                // holds a value of that code, which the handler reads to save it
+                if node.is_handler_function_entry() {
+                    continue;
+                }
                 let args = func.arguments();
                 // The entry node itself kills the caller-saved registers, so they
                 // never show up in its live-in set: what the body reads before
